@@ -25,10 +25,13 @@ PathSrc(segs) ==
   segs[1].v \o JoinStr([i \in 1..(Len(segs) - 1) |->
       LET s == segs[i + 1] IN
       CASE s.t = "k" -> IF "br" \in DOMAIN s /\ s.br THEN "['" \o s.v \o "']" ELSE "." \o s.v
-        [] s.t = "i" -> "[" \o ToString(s.v) \o "]"
-        [] s.t = "p" -> "[" \o PathSrc(s.v) \o "]"], "")
+        [] s.t = "i" -> "[" \o ToString(s.i) \o "]"
+        [] s.t = "p" -> "[" \o PathSrc(s.p) \o "]"], "")
 
-FilterSrc(f) == f.n \o (IF f.args = <<>> THEN "" ELSE ": " \o SeqSrc(f.args, ", "))
+FilterSrc(f) ==
+  LET pos == [i \in DOMAIN f.args |-> ESrc(f.args[i])]
+      kws == IF "kw" \in DOMAIN f THEN [i \in DOMAIN f.kw |-> f.kw[i].n \o ": " \o ESrc(f.kw[i].e)] ELSE <<>>
+  IN f.n \o (IF pos \o kws = <<>> THEN "" ELSE ": " \o JoinStr(pos \o kws, ", "))
 FiltersSrc(fs) == JoinStr([i \in DOMAIN fs |-> FilterSrc(fs[i])], " | ")
 
 \* operand of a binary operator with precedence p on side "l"/"r": binary
@@ -60,6 +63,8 @@ ESrc(e) ==
     [] e.k = "cmp" -> Operand(e.l, 5, "l") \o " " \o e.op \o " " \o Operand(e.r, 5, "l")
     [] e.k \in {"contains", "in"} -> Operand(e.l, 6, "l") \o " " \o e.k \o " " \o Operand(e.r, 6, "l")
     [] e.k = "group" -> "(" \o ESrc(e.e) \o ")"
+    [] e.k = "lambda" ->
+         (IF Len(e.params) = 1 THEN e.params[1] ELSE "(" \o JoinStr(e.params, ", ") \o ")") \o " => " \o ESrc(e.body)
 
 -----------------------------------------------------------------------------
 (* markup *)
@@ -68,10 +73,8 @@ OutSrc(wc, body) == "{{" \o wc[1] \o " " \o body \o " " \o wc[2] \o "}}"
 
 KwSrc(kwargs) == JoinStr([i \in DOMAIN kwargs |-> kwargs[i].n \o ": " \o ESrc(kwargs[i].e)], ", ")
 
-RECURSIVE Src(_), NSrc(_)
+RECURSIVE Src(_), NSrc(_), Lines(_), LSrc(_)
 Src(nodes) == JoinStr([i \in DOMAIN nodes |-> NSrc(nodes[i])], "")
-
-ElseSrc(els) == IF els.has THEN TagSrc(els.wc, "else") \o Src(els.body) ELSE ""
 
 LoopArgs(n) ==
   n.n \o " in " \o ESrc(n.it)
@@ -79,51 +82,81 @@ LoopArgs(n) ==
   \o (IF n.offset.has THEN " offset: " \o (IF n.offset.cont THEN "continue" ELSE ESrc(n.offset.e)) ELSE "")
   \o (IF n.rev THEN " reversed" ELSE "")
 
+\* what stands between the delimiters of a tag (and on a line of a liquid tag)
+TagHead(n) ==
+  CASE n.k = "echo"   -> "echo " \o ESrc(n.e)
+    [] n.k = "assign" -> "assign " \o n.n \o " = " \o ESrc(n.e)
+    [] n.k = "capture" -> "capture " \o n.n
+    [] n.k \in {"if", "unless"} -> n.k \o " " \o ESrc(n.c)
+    [] n.k = "case" -> "case " \o ESrc(n.e)
+    [] n.k = "for" -> "for " \o LoopArgs(n)
+    [] n.k = "tablerow" -> "tablerow " \o LoopArgs(n) \o (IF n.cols.has THEN " cols: " \o ESrc(n.cols.e) ELSE "")
+    [] n.k \in {"break", "continue"} -> n.k
+    [] n.k = "incr" -> "increment " \o n.n
+    [] n.k = "decr" -> "decrement " \o n.n
+    [] n.k = "cycle" -> "cycle " \o (IF n.group = "" THEN "" ELSE n.group \o ": ") \o SeqSrc(n.items, ", ")
+    [] n.k = "with" -> "with " \o KwSrc(n.args)
+    [] n.k \in {"include", "render"} ->
+         n.k \o " " \o ESrc(n.name)
+            \o (IF n.mode = "none" THEN "" ELSE " " \o n.mode \o " " \o ESrc(n.var)
+                    \o (IF n.alias = "" THEN "" ELSE " as " \o n.alias))
+            \o (IF n.kwargs = <<>> THEN "" ELSE ", " \o KwSrc(n.kwargs))
+    [] n.k = "macro" ->
+         "macro " \o n.n \o (IF n.params = <<>> THEN "" ELSE " " \o
+              JoinStr([i \in DOMAIN n.params |-> n.params[i].n \o
+                          (IF n.params[i].has THEN ": " \o ESrc(n.params[i].e) ELSE "")], ", "))
+    [] n.k = "call" ->
+         "call " \o n.n \o (IF n.args = <<>> /\ n.kwargs = <<>> THEN "" ELSE " " \o
+              JoinStr([i \in DOMAIN n.args |-> ESrc(n.args[i])] \o
+                      (IF n.kwargs = <<>> THEN <<>> ELSE <<KwSrc(n.kwargs)>>), ", "))
+EndName(n) == CASE n.k = "incr" -> "" [] OTHER -> "end" \o n.k
+
+ElseSrc(els) == IF els.has THEN TagSrc(els.wc, "else") \o Src(els.body) ELSE ""
+
 NSrc(n) ==
   CASE n.k = "text" -> n.v
     [] n.k = "raw" -> TagSrc(<<n.wc[1], n.wc[2]>>, "raw") \o n.v \o TagSrc(<<n.wc[3], n.wc[4]>>, "endraw")
     [] n.k = "comment" ->
-         (CASE n.kind = "hash"   -> "{#" \o n.wc[1] \o n.v \o n.wc[2] \o "#}"
+         (CASE n.kind = "hash"   -> LET h == IF "hashes" \in DOMAIN n /\ n.hashes = 2 THEN "##" ELSE "#" IN
+                                    "{" \o h \o n.wc[1] \o n.v \o n.wc[2] \o h \o "}"
             [] n.kind = "inline" -> "{%" \o n.wc[1] \o " # " \o n.v \o " " \o n.wc[2] \o "%}"
             [] n.kind = "block"  -> TagSrc(<<n.wc[1], "">>, "comment") \o n.v \o TagSrc(<<"", n.wc[2]>>, "endcomment"))
     [] n.k = "out"    -> OutSrc(n.wc, ESrc(n.e))
-    [] n.k = "echo"   -> TagSrc(n.wc, "echo " \o ESrc(n.e))
-    [] n.k = "assign" -> TagSrc(n.wc, "assign " \o n.n \o " = " \o ESrc(n.e))
-    [] n.k = "capture" -> TagSrc(n.wc, "capture " \o n.n) \o Src(n.body) \o TagSrc(n.ewc, "endcapture")
+    [] n.k \in {"echo", "assign", "break", "continue", "incr", "decr", "cycle", "include", "render", "call"} ->
+         TagSrc(n.wc, TagHead(n))
+    [] n.k \in {"capture", "with", "macro", "tablerow"} ->
+         TagSrc(n.wc, TagHead(n)) \o Src(n.body) \o TagSrc(n.ewc, EndName(n))
     [] n.k \in {"if", "unless"} ->
-         TagSrc(n.wc, n.k \o " " \o ESrc(n.c)) \o Src(n.body)
+         TagSrc(n.wc, TagHead(n)) \o Src(n.body)
          \o JoinStr([i \in DOMAIN n.elifs |->
                TagSrc(n.elifs[i].wc, "elsif " \o ESrc(n.elifs[i].c)) \o Src(n.elifs[i].body)], "")
-         \o ElseSrc(n.else) \o TagSrc(n.ewc, "end" \o n.k)
+         \o ElseSrc(n.else) \o TagSrc(n.ewc, EndName(n))
     [] n.k = "case" ->
-         TagSrc(n.wc, "case " \o ESrc(n.e)) \o n.lead
+         TagSrc(n.wc, TagHead(n)) \o n.lead
          \o JoinStr([i \in DOMAIN n.whens |->
                TagSrc(n.whens[i].wc, "when " \o SeqSrc(n.whens[i].es, ", ")) \o Src(n.whens[i].body)], "")
          \o ElseSrc(n.else) \o TagSrc(n.ewc, "endcase")
     [] n.k = "for" ->
-         TagSrc(n.wc, "for " \o LoopArgs(n)) \o Src(n.body) \o ElseSrc(n.else) \o TagSrc(n.ewc, "endfor")
-    [] n.k \in {"break", "continue"} -> TagSrc(n.wc, n.k)
-    [] n.k = "incr" -> TagSrc(n.wc, "increment " \o n.n)
-    [] n.k = "decr" -> TagSrc(n.wc, "decrement " \o n.n)
-    [] n.k = "cycle" ->
-         TagSrc(n.wc, "cycle " \o (IF n.group = "" THEN "" ELSE n.group \o ": ") \o SeqSrc(n.items, ", "))
-    [] n.k = "with" ->
-         TagSrc(n.wc, "with " \o JoinStr([i \in DOMAIN n.args |-> n.args[i].n \o ": " \o ESrc(n.args[i].e)], ", "))
-         \o Src(n.body) \o TagSrc(n.ewc, "endwith")
-    [] n.k \in {"include", "render"} ->
-         TagSrc(n.wc, n.k \o " " \o ESrc(n.name)
-            \o (IF n.mode = "none" THEN "" ELSE " " \o n.mode \o " " \o ESrc(n.var)
-                    \o (IF n.alias = "" THEN "" ELSE " as " \o n.alias))
-            \o (IF n.kwargs = <<>> THEN "" ELSE ", " \o KwSrc(n.kwargs)))
-    [] n.k = "macro" ->
-         TagSrc(n.wc, "macro " \o n.n \o (IF n.params = <<>> THEN "" ELSE " " \o
-              JoinStr([i \in DOMAIN n.params |-> n.params[i].n \o
-                          (IF n.params[i].has THEN ": " \o ESrc(n.params[i].e) ELSE "")], ", ")))
-         \o Src(n.body) \o TagSrc(n.ewc, "endmacro")
-    [] n.k = "call" ->
-         TagSrc(n.wc, "call " \o n.n \o (IF n.args = <<>> /\ n.kwargs = <<>> THEN "" ELSE " " \o
-              JoinStr([i \in DOMAIN n.args |-> ESrc(n.args[i])] \o
-                      (IF n.kwargs = <<>> THEN <<>> ELSE <<KwSrc(n.kwargs)>>), ", ")))
+         TagSrc(n.wc, TagHead(n)) \o Src(n.body) \o ElseSrc(n.else) \o TagSrc(n.ewc, "endfor")
+    [] n.k = "liquid" -> "{%" \o n.wc[1] \o " liquid\n" \o Lines(n.body) \o "\n" \o n.wc[2] \o "%}"
+
+\* the same constructs as line statements inside {% liquid %} (no delimiters, no
+\* whitespace control, no literal text)
+Lines(nodes) == JoinStr([i \in DOMAIN nodes |-> LSrc(nodes[i])], "\n")
+LElse(els) == IF els.has THEN "\nelse\n" \o Lines(els.body) ELSE ""
+LSrc(n) ==
+  CASE n.k = "comment" -> "# " \o n.v
+    [] n.k \in {"echo", "assign", "break", "continue", "incr", "decr", "cycle", "include", "render", "call"} -> TagHead(n)
+    [] n.k \in {"capture", "with", "macro", "tablerow"} -> TagHead(n) \o "\n" \o Lines(n.body) \o "\n" \o EndName(n)
+    [] n.k \in {"if", "unless"} ->
+         TagHead(n) \o "\n" \o Lines(n.body)
+         \o JoinStr([i \in DOMAIN n.elifs |-> "\nelsif " \o ESrc(n.elifs[i].c) \o "\n" \o Lines(n.elifs[i].body)], "")
+         \o LElse(n.else) \o "\n" \o EndName(n)
+    [] n.k = "case" ->
+         TagHead(n)
+         \o JoinStr([i \in DOMAIN n.whens |-> "\nwhen " \o SeqSrc(n.whens[i].es, ", ") \o "\n" \o Lines(n.whens[i].body)], "")
+         \o LElse(n.else) \o "\nendcase"
+    [] n.k = "for" -> TagHead(n) \o "\n" \o Lines(n.body) \o LElse(n.else) \o "\nendfor"
 
 -----------------------------------------------------------------------------
 (* whitespace-control carry *)
@@ -131,7 +164,7 @@ NSrc(n) ==
 FirstLeft(n) == IF n.k = "text" THEN "+" ELSE n.wc[1]
 LastRight(n) ==
   CASE n.k = "text" -> "+"
-    [] n.k \in {"capture", "if", "unless", "case", "for", "with", "macro"} -> n.ewc[2]
+    [] n.k \in {"capture", "if", "unless", "case", "for", "with", "macro", "tablerow"} -> n.ewc[2]
     [] n.k = "raw" -> n.wc[4]
     [] OTHER -> n.wc[2]
 
@@ -156,7 +189,7 @@ AnnotElse(els, ewc) ==
   IF els.has THEN [els EXCEPT !.body = Annot(els.body, els.wc[2], ewc[1])] ELSE els
 
 AnnotNode(n) ==
-  CASE n.k \in {"capture", "with", "macro"} -> [n EXCEPT !.body = Annot(n.body, n.wc[2], n.ewc[1])]
+  CASE n.k \in {"capture", "with", "macro", "tablerow"} -> [n EXCEPT !.body = Annot(n.body, n.wc[2], n.ewc[1])]
     [] n.k \in {"if", "unless"} ->
          [n EXCEPT !.body = Annot(n.body, n.wc[2], NextBranchLeft(n.elifs, 0, n.else, n.ewc)),
                    !.elifs = [j \in DOMAIN n.elifs |->
@@ -181,7 +214,7 @@ ClearWc(nodes) ==
      LET n == nodes[i] IN
      CASE n.k = "text" -> n
        [] n.k = "raw" -> [n EXCEPT !.wc = <<"", "", "", "">>]
-       [] n.k \in {"capture", "with", "macro"} -> [n EXCEPT !.wc = <<"", "">>, !.ewc = <<"", "">>, !.body = ClearWc(n.body)]
+       [] n.k \in {"capture", "with", "macro", "tablerow"} -> [n EXCEPT !.wc = <<"", "">>, !.ewc = <<"", "">>, !.body = ClearWc(n.body)]
        [] n.k \in {"if", "unless"} ->
             [n EXCEPT !.wc = <<"", "">>, !.ewc = <<"", "">>, !.body = ClearWc(n.body),
                       !.elifs = [j \in DOMAIN n.elifs |-> ClearBranch(n.elifs[j])],
